@@ -20,5 +20,10 @@ def run(ctx):
     if q:
         behs = common.thin(behs, 40000, ctx.seed)
     ctx.replay(behs, common.wrap(preamble), observe, ordered=True, label="edges")
-    walks = ctx.gen_walks("MCTmrPre", "C08_walk.cfg", num=300 if q else 10000, depth=45)
+    walks = ctx.gen_walks("MCTmrPre", "C08_walk.cfg", num=300 if q else 2500, depth=45, timeout=3000)
     ctx.replay(walks, common.wrap(preamble), observe, ordered=True, label="walks")
+    import tmr_trace
+    q_plans = [(3, 2500, 'C08_trace.cfg', 4), (16, 3000, 'C08_trace16.cfg', 2)]
+    t_plans = [(m, n * 4, c, k * 6) for (m, n, c, k) in q_plans]
+    ctx.assumptions.append("direction code -> spec: traces recorded from the real timer manager under random tick injection at every lock / unlock / callback boundary (PRNG driver, pool 3 and 16) are validated event by event by TLC against CoTmrPreTrace (scalar state equal after every event, pool conservation as invariant); which free slot the implementation hands out is left open")
+    tmr_trace.run(ctx, q_plans if q else t_plans)
